@@ -306,6 +306,9 @@ def refract(n, nprime, S, r):
         Sprime, a length 3 vector containing the exitant direction cosines
 
     """
+    # as in reflect: (3,) -> (1,3), so that a single ray and a batch of rays
+    # share the vector code below
+    S, r = np.atleast_2d(S, r)
     mu = n/nprime
     musq = mu * mu
     # r is the surface gradient (-Fx, -Fy, 1), which is only of unit length where
